@@ -184,6 +184,33 @@ Theorem C13_panoc_ocp_converged_is_stationary :
 Proof. exact panoc_ocp_converged_is_stationary. Qed.
 Print Assumptions C13_panoc_ocp_converged_is_stationary.
 
+(* ... the box part stage by stage: input i of stage t of the returned sequence lies between U.lowerbound_i and U.upperbound_i *)
+Theorem C13_panoc_ocp_converged_inputs_in_U :
+  forall (f h : nat -> list R -> list R -> list R) (hN : list R -> list R) (l : nat -> list R -> R) (lN : list R -> R)
+         (c : nat -> list R -> list R) (cN : list R -> list R)
+         (jA jB : nat -> list R -> list R -> list (list R)) (gqr : nat -> list R -> list R -> list R) (gqN : list R -> list R -> list R)
+         (jc : nat -> list R -> list (list R)) (jcN : list R -> list (list R))
+         (d : dims) (Dlb Dub DNlb DNub : list (option R)) (x0 y μ : list R)
+         (DS : Type) (gn_step : nat -> list R -> list R -> e_QR (T:=R) -> list bool -> list R -> list R)
+         (lb_apply : DS -> list R -> R -> list nat -> bool * list R * DS)
+         (lb_update : DS -> list R -> list R -> list R -> list R -> bool * DS) (lb_reset : DS -> DS)
+         (Ulb Uub : list (option R)) (stop_req time_up : counters -> bool) (P : params (T:=R)) (u_in errz_in : list R) (ds0 : DS)
+         (ls_fuel fuel : nat) (o : outputs (T:=R) (list R)),
+  wf_fns f h hN c cN d -> wf_jac jA jB gqr gqN jc jcN d -> length x0 = dnx d ->
+  length Ulb = dnu d -> length Uub = dnu d -> Forall2 box_ne Ulb Uub ->
+  length u_in = (dN d * dnu d)%nat ->
+  length Dlb = dnc d -> length Dub = dnc d -> length DNlb = dncN d -> length DNub = dncN d ->
+  length y = (dN d * dnc d + dncN d)%nat -> length μ = (dN d * dnc d + dncN d)%nat -> Forall (fun m => 0 < m) μ ->
+  0 < p_Lgamma P -> 0 < p_Lmin P -> 0 < p_Lmax P ->
+  (forall j u x qr mask q, length (gn_step j u x qr mask q) = (dN d * dnu d)%nat) ->
+  (forall ds q γ J, length (snd (fst (lb_apply ds q γ J))) = (dN d * dnu d)%nat) ->
+  e2e_run f h hN l lN c cN jA jB gqr gqN jc jcN d Dlb Dub DNlb DNub x0 y μ DS gn_step lb_apply lb_update lb_reset
+          Ulb Uub stop_req time_up P u_in errz_in ds0 ls_fuel fuel = Done o ->
+  out_status o = StConverged ->
+  forall t i, (t < dN d)%nat -> (i < dnu d)%nat -> in_box (nth i Ulb None) (nth i Uub None) (nth (t * dnu d + i) (out_u o) 0).
+Proof. exact panoc_ocp_converged_inputs_in_U. Qed.
+Print Assumptions C13_panoc_ocp_converged_inputs_in_U.
+
 (* the characterisation determines the gradient: two vectors that both satisfy it for the same inputs are equal *)
 Theorem C13_cost_gradient_unique :
   forall f h hN c cN jA jB gqr gqN jc jcN d Dlb Dub DNlb DNub x0 y μ (u g1 g2 : list R),
